@@ -47,6 +47,19 @@ pub fn genesis(kc: &ExtKeychain) -> Block {
 	g
 }
 
+/// RAM-backed scratch when available (fsync is the dominant cost of a chain transition on
+/// disk); falls back to /verif/target/scratch. Override with GV_SCRATCH.
+pub fn scratch_base() -> String {
+	if let Ok(p) = std::env::var("GV_SCRATCH") {
+		return p;
+	}
+	let shm = "/dev/shm/gv-scratch";
+	if std::fs::create_dir_all(shm).is_ok() {
+		return shm.to_string();
+	}
+	"/verif/target/scratch".to_string()
+}
+
 /// Scratch root for this process (under /verif/target/scratch/<pid>), removed by `Scratch::drop`.
 pub struct Scratch {
 	pub root: PathBuf,
@@ -55,7 +68,8 @@ pub struct Scratch {
 impl Scratch {
 	pub fn new(tag: &str) -> Scratch {
 		let root = PathBuf::from(format!(
-			"/verif/target/scratch/{}-{}",
+			"{}/{}-{}",
+			scratch_base(),
 			tag,
 			std::process::id()
 		));
